@@ -141,7 +141,7 @@ pub fn profile(name: &str) -> Profile {
         }
         "sgr" => {
             p.name = "sgr";
-            p.weights = [15, 2, 0, 1, 3, 8, 3, 60, 1, 0, 0, 2, 3, 1, 0, 1, 2];
+            p.weights = [15, 2, 0, 1, 3, 8, 3, 60, 1, 0, 0, 2, 3, 6, 0, 1, 2];
             p.resize_pct = 0;
         }
         "resize" => {
@@ -153,7 +153,7 @@ pub fn profile(name: &str) -> Profile {
         }
         "alt" => {
             p.name = "alt";
-            p.weights = [30, 8, 2, 2, 10, 6, 8, 3, 4, 1, 0, 0, 10, 1, 1, 0, 18];
+            p.weights = [30, 8, 2, 2, 10, 6, 8, 3, 4, 1, 0, 0, 10, 1, 1, 3, 18];
             p.resize_pct = 10;
         }
         "save" => {
@@ -396,7 +396,19 @@ pub fn token(rng: &mut Rng, ctx: &Ctx, kind: usize) -> String {
             7 => "\u{85}".to_string(),
             _ => "\x1bD".to_string(),
         },
-        K_SGR => format!("{}{}m", csi(rng), sgr_params(rng)),
+        K_SGR => {
+            if rng.chance(10) {
+                // near misses: NOT select-graphic-rendition - a private marker or an intermediate before the final m
+                // (xterm's modifyOtherKeys CSI > 4 ; 2 m and friends) must leave the pen alone
+                if rng.chance(60) {
+                    format!("{}{}{}m", csi(rng), rng.pick(&[">", "<", "=", "?"]), sgr_params(rng))
+                } else {
+                    format!("{}{}{}m", csi(rng), sgr_params(rng), rng.pick(&[" ", "$", "!", "\"", "#"]))
+                }
+            } else {
+                format!("{}{}m", csi(rng), sgr_params(rng))
+            }
+        }
         K_MODE => {
             let hl = *rng.pick(&['h', 'l']);
             if rng.chance(70) {
